@@ -349,7 +349,183 @@ def obs_config(c, svc):
   return back, p1.SerializeToString(deterministic=True) == p2.SerializeToString(deterministic=True)
 
 
-OBS = {'config': obs_config, 'param': obs_param, 'metric': obs_metric, 'measurement': obs_measurement, 'trial': obs_trial, 'delta': obs_delta}
+# ------------------------------------------------- algorithm requests / decisions (Pythia wire)
+def _unset(x):
+  return 'unset' if x in (None, '') else ('dir' if x == '/ckpt/dir' else 'other:%r' % (x,))
+
+
+def _problem(c):
+  from vizier import pyvizier as vz
+  p = vz.ProblemStatement()
+  root = p.search_space.root
+  root.add_float_param('x', 0.0, 1.0)
+  if c['space'] == 'conditional':
+    sel = root.add_categorical_param('model', ['a', 'b'])
+    sel.select_values(['a']).add_int_param('depth', 1, 3)
+  p.metric_information.append(vz.MetricInformation('m', goal=vz.ObjectiveMetricGoal.MAXIMIZE))
+  if c['pmeta'] != 'absent':
+    p.metadata['k'] = {'v': 'v', 'empty': ''}[c['pmeta']]
+  return p
+
+
+def _problem_class(p, c):
+  names = sorted(pc.name for pc in p.search_space.parameters)
+  cond = p.search_space.is_conditional
+  shape = 'conditional' if (cond and names == ['model', 'x'] and
+                            [ch.name for ch in p.search_space.get('model').child_parameter_configs] == ['depth']) else (
+                                'flat' if (not cond and names == ['x']) else 'other:%s' % names)
+  if [m.name for m in p.metric_information] != ['m']:
+    shape = 'other:metrics'
+  v = p.metadata.get('k', None)
+  return shape, 'absent' if v is None else {'v': 'v', '': 'empty'}.get(v, 'other')
+
+
+def _descriptor(c, problem):
+  from vizier._src.pyvizier.pythia import study
+  return study.StudyDescriptor(config=problem, guid=c['guid'], max_trial_id=c['maxid'])
+
+
+CKPT = {'none': None, 'empty': '', 'dir': '/ckpt/dir'}
+
+
+def obs_sreq(c, svc):
+  from vizier._src.pythia import policy
+  from vizier._src.pyvizier.oss import proto_converters as pcv
+  x = policy.SuggestRequest(study_descriptor=_descriptor(c, _problem(dict(c))), count=c['count'], checkpoint_dir=CKPT[c['ckpt']])
+  p1 = pcv.SuggestConverter.to_request_proto(x)
+  y = pcv.SuggestConverter.from_request_proto(p1)
+  p2 = pcv.SuggestConverter.to_request_proto(y)
+  space, pmeta = _problem_class(y.study_config, c)
+  back = {'count': y.count, 'ckpt': _unset(y.checkpoint_dir), 'guid': y.study_guid, 'maxid': y.max_trial_id, 'space': space, 'pmeta': pmeta}
+  return back, p1.SerializeToString(deterministic=True) == p2.SerializeToString(deterministic=True)
+
+
+PVAL = {'int0': 0, 'float0': 0.0, 'float15': 1.5, 'str_empty': '', 'str_a': 'a', 'str_False': 'False'}
+
+
+def _pclass(params, name):
+  if name not in params:
+    return 'absent'
+  v = params[name].value
+  for k, ref in PVAL.items():
+    if type(v) is type(ref) and v == ref:
+      return k
+  # numbers may change Python type but not value
+  for k, ref in PVAL.items():
+    if not isinstance(ref, str) and not isinstance(v, str) and v == ref:
+      return {'float0': 'int0'}.get(k, k) if False else k
+  return 'other:%r' % (v,)
+
+
+def _same_number_class(a, b):
+  return a == b or {a, b} == {'int0', 'float0'}
+
+
+def obs_sdec(c, svc):
+  from vizier import pyvizier as vz
+  from vizier._src.pythia import policy
+  from vizier._src.pyvizier.oss import proto_converters as pcv
+  sugg = []
+  for i in range(c['nsug']):
+    params = {}
+    if c['p'] != 'absent':
+      params['p'] = PVAL[c['p']]
+    if c['q'] != 'absent':
+      params['q'] = PVAL[c['q']]
+    s = vz.TrialSuggestion(params)
+    if c['smeta'] == 'ns':
+      s.metadata.ns('algo')['k'] = 'v'
+    elif c['smeta'] != 'absent':
+      s.metadata['k'] = cell_value(c['smeta'])
+    sugg.append(s)
+  delta = vz.MetadataDelta()
+  if c['dstudy'] != 'absent':
+    delta.on_study['k'] = cell_value(c['dstudy'])
+  if c['dtrial'] != 'absent':
+    delta.on_trials[2].ns('algo')['k'] = 'v'
+  x = policy.SuggestDecision(suggestions=sugg, metadata=delta)
+  p1 = pcv.SuggestConverter.to_decision_proto(x)
+  y = pcv.SuggestConverter.from_decision_proto(p1)
+  p2 = pcv.SuggestConverter.to_decision_proto(y)
+  back = dict(c)
+  back['nsug'] = len(y.suggestions)
+  for s in y.suggestions:            # every suggestion carried the same content
+    pc = _pclass(s.parameters, 'p')
+    if not _same_number_class(pc, c['p']):
+      back['p'] = pc
+    qc = _pclass(s.parameters, 'q')
+    if qc != c['q']:
+      back['q'] = qc
+    extra = set(s.parameters) - {'p', 'q'}
+    if extra:
+      back['p'] = 'EXTRA:%s' % sorted(extra)
+    sm = 'ns' if (c['smeta'] == 'ns' and s.metadata.ns('algo').get('k', None) == 'v' and 'k' not in s.metadata) else cell_class(s.metadata, '')
+    if sm != c['smeta']:
+      back['smeta'] = sm
+  back['dstudy'] = cell_class(y.metadata.on_study, '')
+  back['dtrial'] = ('v' if y.metadata.on_trials[2].ns('algo').get('k', None) == 'v' else 'other') if 2 in y.metadata.on_trials else 'absent'
+  if set(y.metadata.on_trials) - {2}:
+    back['dtrial'] = 'EXTRA_TRIALS'
+  return back, p1.SerializeToString(deterministic=True) == p2.SerializeToString(deterministic=True)
+
+
+IDS = {'none': None, 'one': [3], 'two': [3, 5]}
+
+
+def obs_ereq(c, svc):
+  from vizier._src.pythia import policy
+  from vizier._src.pyvizier.oss import proto_converters as pcv
+  x = policy.EarlyStopRequest(study_descriptor=_descriptor(c, _problem({'space': 'flat', 'pmeta': 'absent'})), trial_ids=IDS[c['ids']],
+                              checkpoint_dir=CKPT[c['ckpt']])
+  p1 = pcv.EarlyStopConverter.to_request_proto(x)
+  y = pcv.EarlyStopConverter.from_request_proto(p1)
+  p2 = pcv.EarlyStopConverter.to_request_proto(y)
+  ids = 'none' if y.trial_ids is None else {(): 'empty', (3,): 'one', (3, 5): 'two'}.get(tuple(sorted(y.trial_ids)), 'other')
+  back = {'ids': ids, 'ckpt': _unset(y.checkpoint_dir), 'guid': y.study_guid, 'maxid': y.max_trial_id}
+  return back, p1.SerializeToString(deterministic=True) == p2.SerializeToString(deterministic=True)
+
+
+def obs_edec(c, svc):
+  from vizier import pyvizier as vz
+  from vizier._src.pythia import policy
+  from vizier._src.pyvizier.oss import proto_converters as pcv
+  pfm = {'none': None, 'empty': vz.Measurement(), 'metric0': vz.Measurement({'m': 0.0}), 'metric': vz.Measurement({'m': 1.5}, steps=3)}[c['pfm']]
+  decs = [policy.EarlyStopDecision(id=3 + 2 * i, reason='r', should_stop=c['stop'], predicted_final_measurement=pfm) for i in range(c['n'])]
+  delta = vz.MetadataDelta()
+  if c['dstudy'] != 'absent':
+    delta.on_study['k'] = cell_value(c['dstudy'])
+  if c['dtrial'] != 'absent':
+    delta.on_trials[2].ns('algo')['k'] = 'v'
+  x = policy.EarlyStopDecisions(decisions=decs, metadata=delta)
+  p1 = pcv.EarlyStopConverter.to_decisions_proto(x)
+  y = pcv.EarlyStopConverter.from_decisions_proto(p1)
+  p2 = pcv.EarlyStopConverter.to_decisions_proto(y)
+  back = dict(c)
+  back['n'] = len(y.decisions)
+  back['pfm'] = 'unset' if c['pfm'] in ('none', 'empty') else c['pfm']
+  for i, dcs in enumerate(y.decisions):
+    if dcs.id != 3 + 2 * i or dcs.reason != 'r':
+      back['n'] = 'ids_or_reason_changed'
+    if dcs.should_stop != c['stop']:
+      back['stop'] = dcs.should_stop
+    m = dcs.predicted_final_measurement
+    if m is None or (not m.metrics and not m.steps):
+      cls = 'unset'
+    elif set(m.metrics) == {'m'} and m.metrics['m'].value == 0.0 and not m.steps:
+      cls = 'metric0'
+    elif set(m.metrics) == {'m'} and m.metrics['m'].value == 1.5 and m.steps == 3:
+      cls = 'metric'
+    else:
+      cls = 'other'
+    if cls != back['pfm']:
+      back['pfm'] = cls
+  back['dstudy'] = cell_class(y.metadata.on_study, '')
+  back['dtrial'] = ('v' if y.metadata.on_trials[2].ns('algo').get('k', None) == 'v' else 'other') if 2 in y.metadata.on_trials else 'absent'
+  return back, p1.SerializeToString(deterministic=True) == p2.SerializeToString(deterministic=True)
+
+
+OBS = {'config': obs_config, 'param': obs_param, 'metric': obs_metric, 'measurement': obs_measurement, 'trial': obs_trial, 'delta': obs_delta,
+       'sreq': obs_sreq, 'sdec': obs_sdec, 'ereq': obs_ereq, 'edec': obs_edec}
 WV = re.compile(r'<<"WV", (\d+), "(\w+)">>')
 
 
@@ -361,7 +537,7 @@ def run(ctx):
   all_obs = []
   with tlc.Scratch('c09') as d:
     tlc_states = 0
-    for mode in ('param', 'metric', 'measurement', 'trial', 'delta', 'config'):
+    for mode in ('param', 'metric', 'measurement', 'trial', 'delta', 'config', 'sreq', 'sdec', 'ereq', 'edec'):
       cfg = os.path.join(d, 'W_%s.cfg' % mode)
       tlc.write_cfg(cfg, constants={'Mode': mode}, constraints=['Dump'])
       res = tlc.must_ok(tlc.run_tlc('Wire', cfg, d, workers=4), 'Wire/' + mode)
@@ -403,7 +579,8 @@ def run(ctx):
   ctx.log('  verdicts: %s' % dict(counts))
   n = len(all_obs)
   cov.update({'evaluations': n, 'distinct_nontrivial': n, 'states': tlc_states, 'transitions': n, 'traces_validated_against_impl': n,
-              'rule': 'one case = one value of the Wire.tla universe (parameter config incl. conditional depth, metric info, measurement, trial, metadata delta) '
+              'rule': 'one case = one value of the Wire.tla universe (parameter config incl. conditional depth, metric info, measurement, trial, metadata delta, study config with edits, '
+                      'suggest / early-stop request and decision) '
                       'converted to proto and back with the real converters (parameter configs also through CreateStudy/GetStudy on SQLite); every value is distinct',
               'counts': dict(stats), 'verdicts': dict(counts), 'exhaustive': True})
   ctx.sample(all_obs[len(all_obs) // 2]['case'])
